@@ -323,14 +323,29 @@ pub fn gen_value_text(src: &mut Src, depth: usize, o: &TextOpts, out: &mut Strin
         }
         4 => {
             let n = src.below(o.max_width + 1);
-            let mut items = vec![];
+            let mut items: Vec<J> = vec![];
             out.push('[');
             for i in 0..n {
                 if i > 0 {
                     out.push(',');
                 }
                 ws(src, o, out);
-                items.push(gen_value_text(src, depth + 1, o, out));
+                if i > 0 && src.chance(20) {
+                    // an exact or near duplicate of the previous element
+                    let prev: J = items[i - 1].clone();
+                    let v = if src.flip() { prev } else { crate::gen_doc::near_value_opt(&prev, src, o.wild_floats) };
+                    let mut t = String::new();
+                    v.write_json(&mut t);
+                    match J::parse(&t) {
+                        Ok(back) if back.exact_eq(&v) => {
+                            out.push_str(&t);
+                            items.push(v);
+                        }
+                        _ => items.push(gen_value_text(src, depth + 1, o, out)),
+                    }
+                } else {
+                    items.push(gen_value_text(src, depth + 1, o, out));
+                }
                 ws(src, o, out);
             }
             if n == 0 {
